@@ -865,3 +865,127 @@ pub fn debug_run(plan: &MPlan) {
         }
     }
 }
+
+// ---------------------------------------------------------------------------
+// Artifacts written by the pinned version (see golden.rs)
+// ---------------------------------------------------------------------------
+
+fn outcome_key(o: &Outcome) -> String {
+    match o {
+        Outcome::Success { result, mem_digest, mem_len } => format!("success:{:?}:{:016x}:{}", result, mem_digest, mem_len),
+        Outcome::Trap(_) => "trap".into(),
+        Outcome::OutOfEnergy => "out-of-energy".into(),
+        Outcome::FrameLimit => "frame-limit".into(),
+        Outcome::StepLimit => "step-limit".into(),
+    }
+}
+
+fn log_fp(log: &[Ev]) -> u64 {
+    let mut h: u64 = 0xcbf2_9ce4_8422_2325;
+    for e in log {
+        for b in format!("{:?}", e).bytes() {
+            h = (h ^ b as u64).wrapping_mul(0x0000_0100_0000_01B3);
+        }
+    }
+    h
+}
+
+fn compile(plan: &MPlan) -> Option<Artifact<ArtifactNamedImport, CompiledFunction>> {
+    let bytes = wasm::emit(&plan.module);
+    let cfg = if plan.validation_v1 { ValidationConfig::V1 } else { ValidationConfig::V0 };
+    match plan.metering {
+        0 => utils::instantiate::<ArtifactNamedImport, _>(cfg, &AllowEnv, &bytes),
+        1 => utils::instantiate_with_metering::<ArtifactNamedImport>(cfg, CostConfigurationV0, &AllowEnv, &bytes),
+        _ => utils::instantiate_with_metering::<ArtifactNamedImport>(cfg, CostConfigurationV1, &AllowEnv, &bytes),
+    }
+    .ok()
+    .map(|i| i.artifact)
+}
+
+pub fn golden_make(plan: &MPlan) -> Option<crate::golden::MCase> {
+    let art = compile(plan)?;
+    let max_pages = plan.module.memory.and_then(|m| m.1).unwrap_or(512) as usize;
+    simcore::alloc::set_dirty_limit((max_pages + 1) * 65536);
+    let code_len: u64 = art.code.iter().map(|c| c.code().len() as u64).sum::<u64>().max(16);
+    let args = [Value::I32(plan.arg0), Value::I64(plan.arg1)];
+    let mut h = SimHost::new(None, HUGE, code_len, plan.metering != 0);
+    let o = drive(&art, &mut h, &args, None);
+    if o == Outcome::StepLimit || h.ordinal == 0 {
+        return None;
+    }
+    let mut stored = Vec::new();
+    art.output(&mut stored).ok()?;
+    Some(crate::golden::MCase {
+        plan: plan.clone(),
+        stored,
+        outcome: outcome_key(&o),
+        log_fp: log_fp(&h.log),
+    })
+}
+
+pub fn golden_check(case: &crate::golden::MCase, sched: &Sched, rec: &mut Recorder) -> Option<Violation> {
+    let plan = &case.plan;
+    let gv = |sig: &str, d: String| Some(Violation::new("old-artifact", sig, d, 0));
+    let max_pages = plan.module.memory.and_then(|m| m.1).unwrap_or(512) as usize;
+    simcore::alloc::set_dirty_limit((max_pages + 1) * 65536);
+    let borrowed = match utils::parse_artifact::<ArtifactNamedImport>(&case.stored) {
+        Ok(b) => b,
+        Err(e) => {
+            let m = format!("{:#}", e);
+            if m.contains("Unsupported artifact version") {
+                rec.probe("old_artifact_version_retired");
+                return None;
+            }
+            return gv("old-artifact/parse-failed", format!("an artifact stored by the pinned version can no longer be loaded: {}", m));
+        }
+    };
+    let mut again = Vec::new();
+    let _ = borrowed.output(&mut again);
+    if again != case.stored {
+        return gv(
+            "old-artifact/reserialise-differs",
+            format!("an artifact stored by the pinned version ({} bytes) is written out differently after loading ({} bytes)", case.stored.len(), again.len()),
+        );
+    }
+    let code_len: u64 = borrowed.code.iter().map(|c| c.code().len() as u64).sum::<u64>().max(16);
+    let args = [Value::I32(plan.arg0), Value::I64(plan.arg1)];
+    let metered = plan.metering != 0;
+    let mut h = SimHost::new(Some(sched), HUGE, code_len, metered);
+    let o = drive(&borrowed, &mut h, &args, None);
+    rec.tick(h.steps_total);
+    if h.suspensions > 0 {
+        rec.fault("suspend_resume");
+        rec.nontrivial = true;
+    }
+    rec.probe("ran_old_artifact");
+    if outcome_key(&o) != case.outcome || log_fp(&h.log) != case.log_fp {
+        return gv(
+            "old-artifact/run-differs",
+            format!(
+                "an artifact stored by the pinned version now behaves differently (zero-copy form, schedule {:?}): outcome {} (recorded {}), event log {}",
+                sched,
+                outcome_key(&o),
+                case.outcome,
+                if log_fp(&h.log) == case.log_fp { "equal" } else { "different" }
+            ),
+        );
+    }
+    let owned: Artifact<ArtifactNamedImport, CompiledFunction> = borrowed.into();
+    let mut h = SimHost::new(None, HUGE, code_len, metered);
+    let o = drive(&owned, &mut h, &args, None);
+    if outcome_key(&o) != case.outcome || log_fp(&h.log) != case.log_fp {
+        return gv("old-artifact/run-differs", format!("an artifact stored by the pinned version now behaves differently (owned form): outcome {} (recorded {})", outcome_key(&o), case.outcome));
+    }
+    // the module it was compiled from still compiles to the same behaviour
+    if let Some(fresh) = compile(plan) {
+        let mut h = SimHost::new(None, HUGE, code_len, metered);
+        let o = drive(&fresh, &mut h, &args, None);
+        if outcome_key(&o) != case.outcome || log_fp(&h.log) != case.log_fp {
+            return gv(
+                "old-artifact/fresh-compile-differs",
+                format!("the module now compiles to an artifact that behaves differently from the one the pinned version stored: outcome {} (recorded {})", outcome_key(&o), case.outcome),
+            );
+        }
+    }
+    None
+}
